@@ -1,9 +1,9 @@
 # C19 — Block fetch requests are never lost and go only to peers that have the block.
 
 CFG = {
-    "gen": [],
-    "props": ["EraVerif.Props.C19"],
-    "required_theorems": [
+    "gen": ["StoreConst", "StoreFns"],
+    "props": ["EraVerif.Props.C19", "EraVerif.Props.C19gen"],
+    "required_theorems": ["gen_avail_contains_eq", 
         "request_never_lost", "stays_requested", "failed_hold_is_offered_again", "single_holder",
         "insert_never_overrides", "insert_unwrap_never_panics", "map_entries_are_live_requests",
         "accepted_only_if_announced_and_sampled_minimum", "accept_removes_atomically",
